@@ -679,7 +679,8 @@ def parse_template(path):
                     parts = [x.strip() for x in val.split(" | ")]
                     spec.setdefault("closures", []).append({"n": int(parts[0]), "params": parts[1], "ret": parts[2],
                                                             "ensures": parts[3] if len(parts) > 3 else "-",
-                                                            "let": parts[4] if len(parts) > 4 else "-"})
+                                                            "let": parts[4] if len(parts) > 4 else "-",
+                                                            "requires": parts[5] if len(parts) > 5 else "-"})
                 elif key == "cut-before-re":
                     rx, repl = [x.strip() for x in val.split(" | ")]
                     spec["cut"] = (rx, repl)
@@ -968,12 +969,46 @@ def generate(unit, template_path, canary=False, extra_fns=()):
                     a, pe, bs, be = cl[c["n"]]
                     expr = body[bs:be]
                     new = f"|{c['params']}| -> (rr: {c['ret']})"
+                    if c.get("requires", "-") != "-":
+                        new += f" requires {c['requires']}"
                     if c["ensures"] != "-":
                         new += f" ensures {c['ensures']}"
                     new += " { " + (c["let"] + " " if c["let"] != "-" else "") + expr + " }"
                     g.rewrites.append({"rule": "R3+R10", "where": where, "before": body[a:be], "after": new})
                     body = body[:a] + new + body[be:]
             for pos, anchor, text in spec["inserts"]:
+                if pos in ("after-stmt", "before-stmt"):
+                    # anchor = `<regex>[#k]`: the k-th statement whose text matches the regex from its first token on
+                    # (e.g. `let\s+rhs\s*=`): independent of WHICH function the statement calls
+                    rx, _, kth = anchor.rpartition("#") if re.search(r"#\d+$", anchor) else (anchor, "", "0")
+                    bm = mask_rust(body)
+                    hits = [m for m in re.finditer(rx, bm)]
+                    kth = int(kth or 0)
+                    if kth >= len(hits):
+                        g.rewrites.append({"rule": "R10", "where": where, "before": anchor, "after": f"{pos}: {text}", "missed": True, "count": len(hits)})
+                        continue
+                    st = hits[kth].start()
+                    if pos == "before-stmt":
+                        body = body[:st] + " " + text + " " + body[st:]
+                    else:
+                        depth, k2 = 0, st
+                        while k2 < len(bm):
+                            ch = bm[k2]
+                            if ch in "([{":
+                                depth += 1
+                            elif ch in ")]}":
+                                depth -= 1
+                                if depth < 0:
+                                    break
+                            elif ch == ";" and depth == 0:
+                                break
+                            k2 += 1
+                        if k2 >= len(bm) or bm[k2] != ";":
+                            g.rewrites.append({"rule": "R10", "where": where, "before": anchor, "after": f"{pos}: {text}", "missed": True})
+                            continue
+                        body = body[:k2 + 1] + " " + text + body[k2 + 1:]
+                    g.rewrites.append({"rule": "R10", "where": where, "before": anchor, "after": f"{pos}: {text}"})
+                    continue
                 if pos in ("after-call", "before-call"):
                     # anchor = `<callee>#<k>`: after the statement containing the k-th call of <callee> (robust against
                     # changes of the arguments and of formatting)
